@@ -237,7 +237,7 @@ func c13Run(c c13Case) Verdict {
 	}
 	_, fin := w.Finish()
 	if !fin {
-		return Verdict{Inconclusive: "watchdog while finishing"}
+		return finishFail(w)
 	}
 	rs, err := harness.ParseReplies(w.Out[mark:])
 	if err != nil {
@@ -452,7 +452,7 @@ func c13MisuseRun(c c13MisuseCase) Verdict {
 	}
 	_, fin := w.Finish()
 	if !fin {
-		return Verdict{Inconclusive: "watchdog while finishing"}
+		return finishFail(w)
 	}
 	if _, err := harness.ParseReplies(w.Out); err != nil {
 		return failf("reply-syntax", "misuse %s: replies do not parse: %v", c.Kind, err)
